@@ -17,6 +17,10 @@ repairs and as the reproduction of the recorded finding.
   ghost-invoke        F-C05-1 (known): the reset goroutine is held between sandbox reset and Server.Clear; the
                       FastInvoke of the timed-out request still finds its reservation and runs a whole
                       initialisation + dispatch for a caller that has been answered already.
+  stale-in-flight     (regression for seeded change C02-a) a response / error submission for request 1 has passed the
+                      request-id middleware and is held at Server.SendResponse / SendErrorResponse; request 1 times
+                      out and is reset, request 2 is dispatched to a new runtime, then the held submission is
+                      delivered: it must be refused and must not reach the caller of request 2.
 """
 from scen import Scn
 
@@ -88,9 +92,40 @@ def ghost_invoke(sid, timeout_ms=400):
     return s.done()
 
 
+def stale_in_flight(sid, api="error", timeout_ms=400):
+    s = Scn(sid, ext=[], timeout_ms=timeout_ms, opWaitMs=6000)
+    s.meta(family=FAMILY, schedule="stale-in-flight", api=api)
+    s.init()
+    s.await_exec(kind="rt")
+    tags = {"rt": s.poll("rt")}
+    s.round(tags, {})
+    it = s.invoke(size=5, seed=7)
+    s.wait(tags["rt"])
+    point = "server.sendErrorResponse" if api == "error" else "server.sendResponse"
+    s.hold(point, 1)
+    kw = {"errType": "Function.Stale"} if api == "error" else {}
+    post = s.call("rt", api, async_=True, id="current", body="stale-answer-of-request-2", **kw)
+    s.until_held(point)
+    s.wait(it)                      # the invocation times out, reset, the runtime is killed
+    m = s.mark()
+    it3 = s.invoke(size=6, seed=8)
+    s.await_exec(kind="rt", since=m)
+    p3 = s.call("rt", "next", async_=True)
+    s.wait(p3)
+    s.release(point)                # now the stale submission reaches the server
+    s.sleep(40)
+    s.call("rt", "response", id="current", body="own-answer-of-request-3")
+    tags["rt"] = s.poll("rt")
+    s.wait(it3)
+    s.round(tags, {})
+    return s.done()
+
+
 def scenarios(prefix, which=("watch-late-cancel", "clear-vs-invoke", "ghost-invoke")):
     out = []
-    mk = {"watch-late-cancel": watch_late_cancel, "clear-vs-invoke": clear_vs_invoke, "ghost-invoke": ghost_invoke}
+    mk = {"watch-late-cancel": watch_late_cancel, "clear-vs-invoke": clear_vs_invoke, "ghost-invoke": ghost_invoke,
+          "stale-error-in-flight": lambda sid: stale_in_flight(sid, "error"),
+          "stale-response-in-flight": lambda sid: stale_in_flight(sid, "response")}
     for i, w in enumerate(which):
         out.append(mk[w]("%s-fs%d-%s" % (prefix, i + 1, w)))
     return out
